@@ -95,7 +95,7 @@ k("c06_is_prefix_of_compares_components_bounded", "path::Path::is_prefix_of + Pa
 k("c14_header_totals_bounded", "group::file_count + group::total_size + FileGroup::{file_count, total_size}", module="group", t=600,
   cls="bounded", bound="two groups of 0..3 files, lengths <= 2^40")
 k("c14_sort_by_path_no_roots_bounded", "group::FileGroup::sort_by_path [no --isolate roots] + derived Ord of path::Path", module="group", t=600,
-  cls="bounded", bound="3 files in one directory, one-byte names")
+  cls="bounded", bound="3 files in one directory, distinct one-byte names, all 6 input orders")
 # ---- semaphore.rs
 k("c19_release", "semaphore::Semaphore::release", module="semaphore", t=300)
 k("c19_guard_roundtrip", "semaphore::Semaphore::access + Drop for SemaphoreGuard", module="semaphore", t=300)
